@@ -267,7 +267,7 @@ def run(tier, seed, replay=None):
             else: n_qtt_coq += 1
     # reshape / permute / to_qtt read, the operand edited in place, read again (harness/staleprobe.py)
     import staleprobe
-    npf = lambda t: t.full().detach().resolve_conj().numpy()
+    npf = lambda t: t.full().detach().resolve_conj().resolve_neg().numpy()
     ex_t = [("reshape [4,2,8] -> [2,2,2,2,4]", lambda x: npf(torchtt.reshape(x, [2, 2, 2, 2, 4], 1e-13)), lambda D, x: D.reshape(2, 2, 2, 2, 4)),
             ("reshape [4,2,8] -> [8,8]", lambda x: npf(torchtt.reshape(x, [8, 8], 1e-13)), lambda D, x: D.reshape(8, 8)),
             ("permute [2,0,1]", lambda x: npf(torchtt.permute(x, [2, 0, 1], 1e-13)), lambda D, x: D.transpose(2, 0, 1)),
